@@ -125,8 +125,8 @@ void ebpps_sample<T,A>::merge(FwdSample&& other) {
   double c_int;
   const double c_frac = std::modf(c_, &c_int);
 
-  double unused;
-  const double other_c_frac = std::modf(other.c_, &unused);
+  double other_c_int;
+  const double other_c_frac = std::modf(other.c_, &other_c_int);
 
   // update c_ here but do NOT recompute fractional part yet
   c_ += other.c_;
@@ -144,6 +144,9 @@ void ebpps_sample<T,A>::merge(FwdSample&& other) {
   // check if the partial item exists before adding to the data_ vector.
 
   if (c_frac == 0.0 && other_c_frac == 0.0) {
+    partial_item_.reset();
+  } else if (c_ == c_int + other_c_int) {
+    // the fractional parts are too small to register in c_: nothing is promoted
     partial_item_.reset();
   } else if (c_frac + other_c_frac == 1.0 || c_ == std::floor(c_)) {
     if (next_double() <= c_frac) {
